@@ -1,6 +1,6 @@
 //! C16 — editor positions and byte offsets convert exactly in both directions.
 //!
-//! State space: every text of <= n symbols over {a, é, €, 😉, LF, CRLF}. For each text,
+//! State space: every text of <= n symbols over {a, é, €, 😉, LF, CRLF, U+2028, U+0085, FF}. For each text,
 //! every byte offset 0..=len+2, every position (line 0..=lines+1, character
 //! 0..=maxcol+2) and every span s <= e is pushed through the real conversion functions
 //! (hook H3) and compared with the line-table reference model.
@@ -13,6 +13,10 @@ use oal_model::span::{CharSpan, Span};
 use serde_json::{json, Value};
 
 pub struct C16;
+
+/// The text alphabet of C15(a) plus three characters that some editors break lines at and the
+/// protocol does not (line separator, next line, form feed).
+const SYMBOLS16: [&str; 9] = ["a", "\u{e9}", "\u{20ac}", "\u{1F609}", "\n", "\r\n", "\u{2028}", "\u{85}", "\u{c}"];
 
 fn lsp_pos(p: Pos) -> lsp_types::Position {
     lsp_types::Position {
@@ -203,7 +207,7 @@ impl Engine for C16 {
     }
     fn run_phase(&self, phase: &Phase, sink: &mut Sink) {
         let n = phase.param["n"].as_u64().unwrap() as usize;
-        let total = 6u64.pow(n as u32);
+        let total = (SYMBOLS16.len() as u64).pow(n as u32);
         let mut idx = sink.shard;
         // Index-addressable space: jump straight to this shard's cases.
         if let Some(i) = sink.single() {
@@ -213,7 +217,7 @@ impl Engine for C16 {
             if sink.expired() {
                 break;
             }
-            let text = text_of(n, idx, &SYMBOLS);
+            let text = text_of(n, idx, &SYMBOLS16);
             sink.visit(idx, || json!({"text": text}), |s| run_text(&text, s));
             if sink.single().is_some() {
                 break;
@@ -229,7 +233,7 @@ impl Engine for C16 {
         }
     }
     fn rule(&self) -> String {
-        "every text of <= n symbols over {a, é, €, 😉, LF, CRLF}; per text every byte offset 0..=len+2, every position (line 0..=lines+1, character 0..=maxcol+2) and every span s<=e on symbol boundaries plus the end-of-input span len..len+1, through the real position_to_utf8 / utf8_to_position / utf8_range_to_position / CharSpan::from, compared with a line-table reference. A text is non-trivial when it holds a multi-byte character or a line break; distinct = distinct observation vectors".into()
+        "every text of <= n symbols over {a, é, €, 😉, LF, CRLF, U+2028, U+0085, FF}; per text every byte offset 0..=len+2, every position (line 0..=lines+1, character 0..=maxcol+2) and every span s<=e on symbol boundaries plus the end-of-input span len..len+1, through the real position_to_utf8 / utf8_to_position / utf8_range_to_position / CharSpan::from, compared with a line-table reference. A text is non-trivial when it holds a multi-byte character or a line break; distinct = distinct observation vectors".into()
     }
     fn assumptions(&self) -> Vec<String> {
         vec![
